@@ -2,7 +2,7 @@
 # usage: sweep_mutants.sh <out.tsv> <prop>...   runs each /tmp/mut/<prop>/_mutants/m*/patch.diff against that property's quick check
 OUT=$1; shift
 for P in "$@"; do
-  for M in /tmp/mut/$P/_mutants/m*; do
+  for M in ${MUTBASE:-/tmp/mut}/$P/_mutants/m*; do
     [ -f $M/patch.diff ] || continue
     R=$(TIER=${TIER:-quick} LINES_MAX=40 /verif/tools/try_mutant.sh $M/patch.diff -- $P 2>&1)
     V=$(echo "$R" | grep -c "^VIOLATION")
